@@ -97,8 +97,8 @@ PROPS = {
                 rule="every program of the slice grammars (base facts + 1-3 clauses whose bodies combine calls, =, ==, conjunction, disjunction, nested and/or; the recursive list programs; the aliasing programs) x queries, each asked until 'no more'; "
                      "TLC checks that the solution-node machine of Solver.tla refines the declarative search of SLD.tla (Refines) and the real engine must observe the same answers in the same order; solve_all must report them as `$Var = value`",
                 assumptions=["programs whose reference search exceeds the call-depth budget or needs an occurs check are outside the claim (counted under excluded_cases)"]),
-    "C02": dict(jobs=["solver-cut", "trace-solver"], level="model_checking",
-                rule="`!` at every position of 2-3 literal conjunctions, disjunctions and their nestings, before/after succeeding, failing, multi-answer and printing goals, in a called predicate, with later clauses that succeed / fail / print, and under a caller; TLC checks CutCommits, NoRetryLeftOfCut, CutIsLocal and Refines on the machine",
+    "C02": dict(jobs=["solver-cut", "trace-solver", "interleave"], level="model_checking",
+                rule="(interleave: queries over predicates without variables whose clauses cut -- `pz :- !, r0.` with two r0, `pw :- (a0, c0), !, b0.`, a cut in a later alternative -- asked in every interleaving while a third query is built before every request) `!` at every position of 2-3 literal conjunctions, disjunctions and their nestings, before/after succeeding, failing, multi-answer and printing goals, in a called predicate, with later clauses that succeed / fail / print, and under a caller; TLC checks CutCommits, NoRetryLeftOfCut, CutIsLocal and Refines on the machine",
                 assumptions=["cut inside not(...) / time(...) is excluded, as the property states"]),
     "C03": dict(jobs=["solver-not", "trace-solver"], level="model_checking",
                 rule="not(...) around calls, conjunctions, disjunctions, unifications, comparisons, printing goals and another not, alone / after / before generators / in a disjunction, x queries with unbound and ground arguments",
